@@ -212,6 +212,34 @@ def correspond(ctx):
             nbad += 1
             ctx.violation("%s:%r|%r|%r|%r" % (k, g1, g2, s1, s2), "g1=%r g2=%r s1=%r s2=%r: %s" % (g1, g2, s1, s2, what),
                           {"kind": "pair", "g1": g1, "g2": g2, "env": env, "s1": s1, "s2": s2})
+    # (iii) the same name bindings with packrat on: alternatives sharing a named prefix re-use cached results
+    from tools.props import c02
+    pgroups = []
+    for i in range(120 if not ctx.thorough else 1200):
+        if i % 3 == 0:
+            N1, N2 = ("name", "v", ("word", "ab")), (rng.choice(["name", "namestar"]), rng.choice(["v", "w"]), ("word", "ab"))
+            g = ("mf", ("and", N1, N1, ("lit", ",")), ("and", N1, N2, ("lit", ")")), ("group", ("and", N1, N2)))
+            inputs = ["a b )", "a b ,", "ab ba", "a b"]
+        else:
+            g = c02.prefix_grammar(rng)
+            inputs = sorted({gen.sample_input(rng, g, gen.ENV0) for _ in range(3)} | {gen.mutate_input(rng, gen.sample_input(rng, g, gen.ENV0))})[:4]
+        pgroups.append((g, gen.ENV0, inputs, [("none",), ("packrat", 128), ("packrat", 2)], [("parse", False)]))
+    precs = corr.run_groups(pgroups, stats=stats)
+    pcommon.model_agreement(ctx, precs, "name-structure-packrat")
+    byk = {}
+    for r in precs:
+        byk.setdefault((repr(r["g"]), r["inp"]), {})[r["mode"]] = r
+    for k, d in byk.items():
+        base = d.get(("none",))
+        for mode, r in d.items():
+            if base is None or mode == ("none",) or r["real"][0] != "ok" or base["real"][0] != "ok":
+                continue
+            ctx.case("packrat-names:" + pcommon.key_of(r), r["hits"] > 0 and len(r["real"][1][2]) > 0, r.get("agree", True))
+            if views.name_view(r["real"][1]) != views.name_view(base["real"][1]):
+                ctx.violation("packrat-names:%r|%r|%r" % (r["g"], r["inp"], mode),
+                              "%r on %r: with %r the names are %r, with memoization off %r" % (
+                                  r["g"], r["inp"], mode, views.name_view(r["real"][1]), views.name_view(base["real"][1])),
+                              {"kind": "packrat-names", "grammar": r["g"], "env": r["env"], "input": r["inp"], "mode": mode})
     ctx.stat("oracle_pairs", npairs)
     ctx.stat("oracle_violations", nbad)
     ctx.sample({"scenario": SCENARIOS[3][0], "input": SCENARIOS[3][2], "names": SCENARIOS[3][3]})
@@ -259,5 +287,12 @@ def replay(ctx, obj):
         for k, what in bad:
             print(k, "::", what)
         return not bad
+    if r.get("kind") == "packrat-names":
+        g, env = _tuplify(r["grammar"]), {int(k): _tuplify(v) for k, v in (r.get("env") or {}).items()}
+        a = pcommon.single(g, env, r["input"], ("none",), ("parse", False))
+        b = pcommon.single(g, env, r["input"], _tuplify(r["mode"]), ("parse", False))
+        print("off:", views.name_view(a["real"][1]) if a["real"][0] == "ok" else a["real"])
+        print("on :", views.name_view(b["real"][1]) if b["real"][0] == "ok" else b["real"])
+        return a["real"][0] == b["real"][0] and (a["real"][0] != "ok" or views.name_view(a["real"][1]) == views.name_view(b["real"][1]))
     print("replay names a broken proof/correspondence obligation: %r" % (r,))
     return False
